@@ -84,6 +84,7 @@ type PropertyDecl struct {
 	ID    string
 	Units []string
 	Sweep bool
+	Core  map[string]bool
 }
 
 type SpecFile struct {
@@ -531,6 +532,28 @@ func (sf *SpecFile) ParseText(path, text string) error {
 				u = strings.TrimSpace(u)
 				if u != "" {
 					pd.Units = append(pd.Units, u)
+				}
+			}
+			cur = nil
+		case "core":
+			// core C01 C02: f, g -- f and g are units of each listed property and ALL their clauses count for it
+			parts := strings.SplitN(rest, ":", 2)
+			if len(parts) != 2 {
+				return errf("core needs 'props: units'")
+			}
+			for _, id := range strings.Fields(strings.ReplaceAll(parts[0], ",", " ")) {
+				pd := sf.Properties[id]
+				if pd == nil {
+					pd = &PropertyDecl{ID: id}
+					sf.Properties[id] = pd
+				}
+				if pd.Core == nil {
+					pd.Core = map[string]bool{}
+				}
+				for _, u := range strings.Split(parts[1], ",") {
+					if u = strings.TrimSpace(u); u != "" {
+						pd.Core[u] = true
+					}
 				}
 			}
 			cur = nil
